@@ -1650,20 +1650,40 @@ func (o *ovsdbClient) List(ctx context.Context, result interface{}) error {
 
 // Where implements the API interface's Where function
 func (o *ovsdbClient) Where(models ...model.Model) ConditionalAPI {
-	return o.currentAPI().Where(models...)
+	api := o.currentAPI()
+	if api == nil {
+		// never connected: a conditional whose every use reports it
+		return newConditionalAPI(nil, newErrorConditional(ErrNotConnected), o.logger)
+	}
+	return api.Where(models...)
 }
 
 // WhereAny implements the API interface's WhereAny function
 func (o *ovsdbClient) WhereAny(m model.Model, conditions ...model.Condition) ConditionalAPI {
-	return o.currentAPI().WhereAny(m, conditions...)
+	api := o.currentAPI()
+	if api == nil {
+		// never connected: a conditional whose every use reports it
+		return newConditionalAPI(nil, newErrorConditional(ErrNotConnected), o.logger)
+	}
+	return api.WhereAny(m, conditions...)
 }
 
 // WhereAll implements the API interface's WhereAll function
 func (o *ovsdbClient) WhereAll(m model.Model, conditions ...model.Condition) ConditionalAPI {
-	return o.currentAPI().WhereAll(m, conditions...)
+	api := o.currentAPI()
+	if api == nil {
+		// never connected: a conditional whose every use reports it
+		return newConditionalAPI(nil, newErrorConditional(ErrNotConnected), o.logger)
+	}
+	return api.WhereAll(m, conditions...)
 }
 
 // WhereCache implements the API interface's WhereCache function
 func (o *ovsdbClient) WhereCache(predicate interface{}) ConditionalAPI {
-	return o.currentAPI().WhereCache(predicate)
+	api := o.currentAPI()
+	if api == nil {
+		// never connected: a conditional whose every use reports it
+		return newConditionalAPI(nil, newErrorConditional(ErrNotConnected), o.logger)
+	}
+	return api.WhereCache(predicate)
 }
